@@ -52,6 +52,8 @@ def run_case(case):
     rng = random.Random(case["stim_seed"])
     pins, dw, stages = case["pins"], case["dw"], case["stages"]
     aw = min_aw(pins, dw) + case["aw_extra"]
+    from vmon.simkit import decoy
+    decoy(rng, lambda: gpio.Peripheral(pin_count=pins, addr_width=aw, data_width=dw, input_stages=stages))
     dut = gpio.Peripheral(pin_count=pins, addr_width=aw, data_width=dw, input_stages=stages)
     bus = dut.bus
     mon = Mon()
